@@ -9,6 +9,7 @@ package sim
 import (
 	"errors"
 	"fmt"
+	"os"
 	"sort"
 	"sync"
 	"time"
@@ -448,6 +449,14 @@ func (s *Session) stmt(task string, fn func() error) error {
 		s.waitRow, s.waitAdv = wb.row, wb.adv
 		victim := false
 		if cycle := db.cycleLocked(s); len(cycle) > 0 {
+			if sqlTrace {
+				for _, c := range cycle {
+					fmt.Fprintf(os.Stderr, "SQLTRACE cycle member session %d waitRow=%v waitAdv=%q victim=%v\n", c.id, c.waitRow, c.waitAdv, c.victim)
+				}
+				for k, o := range db.rowLocks {
+					fmt.Fprintf(os.Stderr, "SQLTRACE   rowlock %v held by session %d\n", k, o.id)
+				}
+			}
 			// which member of the cycle PostgreSQL aborts depends on whose deadlock timer fires first:
 			// it is a scheduler decision
 			idx := 0
